@@ -389,6 +389,7 @@ struct Runner {
         int id = ids[rng.below(ids.size())];
         note("handle-move");
         log("mv" + std::to_string(id));
+        if (rng.chance(150)) { Sub &self = e[id]->handle; e[id]->handle = std::move(self); }   // self-assignment leaves the handle as it is
         Sub tmp(std::move(e[id]->handle));             // move-construct
         if (e[id]->handle.isValid() || e[id]->handle.getSubject()) return fail("C05", "handle-state", site, "moved-from handle still refers to a subject");
         if (rng.chance(500)) {
